@@ -33,9 +33,9 @@ NP == 1..2
 NT == 1..2
 Keys == {"x", "y"}
 
-VARIABLES arr, narr, S, P, T, TP, M, I, cell, clo, next, hist
-vars == <<arr, narr, S, P, T, TP, M, I, cell, clo, next, hist>>
-view == <<arr, narr, S, P, T, TP, M, I, cell, clo, next, Len(hist)>>
+VARIABLES arr, narr, S, P, T, TP, M, I, cell, clo, next, fin, hist
+vars == <<arr, narr, S, P, T, TP, M, I, cell, clo, next, fin, hist>>
+view == <<arr, narr, S, P, T, TP, M, I, cell, clo, next, fin, Len(hist)>>
 
 NilS == [a |-> 0, off |-> 0, len |-> 0, cap |-> 0]
 NilP == [k |-> "nil", a |-> 0, i |-> 0]
@@ -75,17 +75,21 @@ Init ==
   /\ arr = [a \in 1..MaxArr |-> <<>>] /\ narr = 0
   /\ S = [i \in NS |-> NilS] /\ P = [i \in NP |-> NilP] /\ T = [i \in NT |-> NilT] /\ TP = 0
   /\ M = [k \in Keys |-> [has |-> FALSE, s |-> NilS]] /\ I = NilI
-  /\ cell = [c \in 1..2 |-> 0] /\ clo = 0 /\ next = 1 /\ hist = <<>>
+  /\ cell = [c \in 1..2 |-> 0] /\ clo = 0 /\ next = 1 /\ fin = FALSE /\ hist = <<>>
 
 Room == narr < MaxArr
 Fresh == next' = next + 1
 Same(vs) == UNCHANGED vs
 
 \* S[s] = make([]int, n, c), visible part filled with fresh values
+\* (Full = simulation: the ops with many argument combinations are thinned out so that the
+\*  uniformly chosen successor is not nearly always a make or a reslice)
 MakeSlice ==
   /\ Room
+  /\ Full => Cardinality({x \in NS : S[x].a # 0}) < 2
   /\ \E s \in NS, c \in 1..MaxCap, n \in 0..MaxCap :
        /\ n <= c
+       /\ Full => (c >= 2 /\ n >= c - 1)
        /\ narr' = narr + 1
        /\ arr' = [arr EXCEPT ![narr + 1] = [i \in 1..c |-> IF i <= n THEN next + i - 1 ELSE 0]]
        /\ S' = [S EXCEPT ![s] = [a |-> narr + 1, off |-> 0, len |-> n, cap |-> c]]
@@ -98,6 +102,7 @@ Reslice ==
   \E d \in NS, s \in NS : S[s].a # 0 /\
   \E i \in 0..S[s].cap, j \in 0..S[s].cap :
        /\ i <= j
+       /\ Full => (i <= 1 /\ j >= S[s].cap - 1 /\ d = (s % 3) + 1)
        /\ S' = [S EXCEPT ![d] = [a |-> S[s].a, off |-> S[s].off + i, len |-> j - i, cap |-> S[s].cap - i]]
        /\ Same(<<arr, narr, P, T, TP, M, I, cell, clo, next>>)
        /\ Log("rs", d, s, i, j)
@@ -106,6 +111,7 @@ Reslice ==
 AppendS ==
   /\ Room
   /\ \E d \in NS, s \in NS :
+       (Full => (S[s].a # 0 /\ (d = s \/ d = (s % 3) + 1))) /\
        LET r == App(arr, narr, S[s], next) IN
        /\ arr' = r[1] /\ narr' = r[2] /\ S' = [S EXCEPT ![d] = r[3]] /\ Fresh
        /\ Same(<<P, T, TP, M, I, cell, clo>>)
@@ -142,6 +148,7 @@ PtrWrite ==
 TSet ==
   /\ Full
   /\ \E t \in NT, s \in NS, p \in NP :
+       /\ S[s].a # 0 /\ (P[p].k # "nil" \/ p = 1)
        /\ T' = [T EXCEPT ![t] = [n |-> next, ref |-> P[p], view |-> S[s]]] /\ Fresh
        /\ Same(<<arr, narr, S, P, TP, M, I, cell, clo>>)
        /\ Log("ts", t, s, p, 0)
@@ -182,6 +189,7 @@ TPWrite ==
 MSet ==
   /\ Full
   /\ \E k \in Keys, s \in NS :
+       /\ S[s].a # 0
        /\ M' = [M EXCEPT ![k] = [has |-> TRUE, s |-> S[s]]]
        /\ Same(<<arr, narr, S, P, T, TP, I, cell, clo, next>>)
        /\ Log("ms", k, s, 0, 0)
@@ -206,11 +214,11 @@ MDel ==
        /\ Log("md", k, 0, 0, 0)
 
 \* I = S[s] / P[p] / T[t] ; I = append(I.([]int), fresh) ; write through I
-IBoxS == Full /\ \E s \in NS : I' = [NilI EXCEPT !.k = "slice", !.s = S[s]]
+IBoxS == Full /\ \E s \in NS : S[s].a # 0 /\ I' = [NilI EXCEPT !.k = "slice", !.s = S[s]]
             /\ Same(<<arr, narr, S, P, T, TP, M, cell, clo, next>>) /\ Log("ib", s, 0, 0, 0)
 IBoxP == Full /\ \E p \in NP : P[p].k # "nil" /\ I' = [NilI EXCEPT !.k = "ptr", !.p = P[p]]
             /\ Same(<<arr, narr, S, P, T, TP, M, cell, clo, next>>) /\ Log("ip", p, 0, 0, 0)
-IBoxT == Full /\ \E t \in NT : I' = [NilI EXCEPT !.k = "box", !.b = T[t]]
+IBoxT == Full /\ \E t \in NT : T[t] # NilT /\ I' = [NilI EXCEPT !.k = "box", !.b = T[t]]
             /\ Same(<<arr, narr, S, P, T, TP, M, cell, clo, next>>) /\ Log("it", t, 0, 0, 0)
 IAppend ==
   /\ Full /\ Room /\ I.k = "slice"
@@ -244,13 +252,18 @@ CPtr ==
        /\ Same(<<arr, narr, S, T, TP, M, I, cell, clo, next>>)
        /\ Log("cp", p, 0, 0, 0)
 
-Next ==
-  /\ Len(hist) < MaxLen
-  /\ \/ MakeSlice \/ Reslice \/ AppendS \/ SetElem \/ PtrElem \/ PtrWrite
-     \/ TSet \/ TCopy \/ TViewSet \/ TAppend \/ TPSet \/ TPWrite
-     \/ MSet \/ MAppend \/ MElem \/ MDel
-     \/ IBoxS \/ IBoxP \/ IBoxT \/ IAppend \/ IWrite
-     \/ CMake \/ CInc \/ CPtr
+\* the behaviour is complete (a step with exactly one successor, so that simulation prints it once)
+Done == Len(hist) = MaxLen /\ ~fin /\ fin' = TRUE
+        /\ UNCHANGED <<arr, narr, S, P, T, TP, M, I, cell, clo, next, hist>>
+
+Step ==
+  \/ MakeSlice \/ Reslice \/ AppendS \/ SetElem \/ PtrElem \/ PtrWrite
+  \/ TSet \/ TCopy \/ TViewSet \/ TAppend \/ TPSet \/ TPWrite
+  \/ MSet \/ MAppend \/ MElem \/ MDel
+  \/ IBoxS \/ IBoxP \/ IBoxT \/ IAppend \/ IWrite
+  \/ CMake \/ CInc \/ CPtr
+\* nothing but make() is useful before the first backing array exists
+Next == Done \/ (Len(hist) < MaxLen /\ UNCHANGED fin /\ (IF narr = 0 THEN MakeSlice ELSE Step))
 Spec == Init /\ [][Next]_vars
 
 \* every view and pointer stays inside an allocated array
@@ -264,6 +277,6 @@ WellFormed ==
   /\ InRange(I.s) /\ PtrOK(I.p) /\ InRange(I.b.view)
 
 Emit == PrintT(<<"TRACE", ToJson(hist)>>)
-EmitAtEnd == Len(hist) < MaxLen \/ Emit
-EmitEdge == PrintT(<<"EDGE", ToJson(hist')>>)
+EmitAtEnd == ~fin \/ Emit
+EmitEdge == hist' = hist \/ PrintT(<<"EDGE", ToJson(hist')>>)
 =============================================================================
